@@ -164,7 +164,7 @@ pub fn generate(seed: u64, tier: Tier) -> History {
             let mut blocks = vec![gen::Block::Heading { level: 1, inl: vec![gen::Inline::Word("big".into())], setext: false }];
             let mut g = Gen { rng: &mut work, cfg: &cfg };
             blocks.push(g.table());
-            for i in 0..g.rng.range(120, 220) {
+            for i in 0..g.rng.range(230, 330) {
                 blocks.push(if i % 17 == 5 { g.block_ref() } else { gen::Block::Para(vec![g.inlines(20)]) });
             }
             let d = Doc { front: None, blocks, trailing_newline: true, bom: false };
